@@ -438,7 +438,12 @@ impl<'env> Executor<'env> {
                     let stop = stack.pop();
                     b = stack.pop();
                     a = stack.pop();
-                    if a.is_undefined() && matches!(undefined_behavior, UndefinedBehavior::Strict) {
+                    if a.is_undefined()
+                        && matches!(
+                            undefined_behavior,
+                            UndefinedBehavior::Strict | UndefinedBehavior::SemiStrict
+                        )
+                    {
                         bail!(Error::from(ErrorKind::UndefinedError));
                     }
                     stack.push(ctx_ok!(ops::slice(a, b, stop, step)));
